@@ -49,6 +49,9 @@ def string_index(inv):
     return inv
 
 
+KEYWORD_TURN = [0]
+
+
 def decode(res, raw, inv, label):
     from pykdebugparser.os_log_event import OsLogEvent
     def case():
@@ -65,7 +68,9 @@ def decode(res, raw, inv, label):
         walk(raw)
         return {'raw': raw, 'strings': used}
     try:
-        got = OsLogEvent.from_raw_log_event(logs.fresh(raw), string_index(inv))
+        KEYWORD_TURN[0] += 1
+        got = OsLogEvent.from_raw_log_event(event=logs.fresh(raw), log_strings=string_index(inv)) if KEYWORD_TURN[0] % 7 == 0 \
+            else OsLogEvent.from_raw_log_event(logs.fresh(raw), string_index(inv))
     except Exception as x:
         where = core.short_tb(x, 1)
         key = f'c16-raises-{core.exc_name(x)}-{where[-1] if where else "?"}'
